@@ -1,6 +1,7 @@
 package main
 
 import (
+	"go/constant"
 	"os"
 	"fmt"
 	"go/ast"
@@ -45,6 +46,7 @@ func checkC16(c *Ctx) {
 	c16TempRename(c, c.fn("mod/modcache", "(*Cache).writeDiskCache"), "file", []string{"os.(*File).Write"})
 	c16SingleFlight(c)
 	c16Ownership(c)
+	c16Misc(c)
 	c.expect("fetch.unzip-under-lock", 1)
 	c.expect("fetch.marker-before-unzip", 1)
 	c.expect("fetch.marker-removed-before-success", 1)
@@ -900,4 +902,65 @@ func c16InsideLit(f *Fn, call *ast.CallExpr) bool {
 		return !in
 	})
 	return in
+}
+
+// c16Misc: the remaining small obligations of the protocol.
+func c16Misc(c *Ctx) {
+	// temp files are created exclusively (a stale or concurrent temp file is never reused)
+	tf := c.fn("mod/modcache", "tempFile")
+	osPkg := c.Pkgs["os"]
+	flag := func(name string) int64 {
+		k := osPkg.Types.Scope().Lookup(name).(*types.Const)
+		v, _ := constant.Int64Val(k.Val())
+		return v
+	}
+	okExcl := false
+	ast.Inspect(tf.Body, func(n ast.Node) bool {
+		if call, ok := n.(*ast.CallExpr); ok && calleeName(tf.Info(), call) == "os.OpenFile" && len(call.Args) == 3 {
+			if tv := tf.Info().Types[call.Args[1]]; tv.Value != nil {
+				v, _ := constant.Int64Val(tv.Value)
+				okExcl = v&flag("O_EXCL") != 0 && v&flag("O_CREATE") != 0 && v&flag("O_TRUNC") == 0
+			}
+		}
+		return true
+	})
+	c.check("temp-rename.temp-file-exclusive", tf.Name, tf.Decl.Pos(), okExcl, "tempFile must create its file with O_CREATE|O_EXCL (never reuse or truncate an existing temp file)")
+	// FetchFromCache and downloadZip hand out a path only after the presence check / download succeeded
+	ff := c.fn("mod/modcache", "(*Cache).FetchFromCache")
+	g := c.graph(ff)
+	dd := g.callNodes(mc + "(*Cache).downloadDir")
+	ok := len(dd) > 0
+	if ok {
+		in := g.run(g.successAutomaton(dd))
+		for _, r := range g.successReturns() {
+			if in[r]&^(1<<stOK) != 0 {
+				ok = false
+			}
+		}
+	}
+	c.check("fetch.from-cache-needs-complete-dir", ff.Name, ff.Decl.Pos(), ok, "FetchFromCache may return a location only when downloadDir reported a complete directory")
+	dz := c.fn("mod/modcache", "(*Cache).downloadZip")
+	if cl := c.litArgOf(dz, "internal/par.(*ErrCache).Do"); cl != nil {
+		gz := c.graph(cl)
+		st := gz.callNodes("os.Stat")
+		d1 := gz.callNodes(mc + "(*Cache).downloadZip1")
+		inS := gz.run(gz.successAutomaton(st))
+		inD := gz.run(gz.successAutomaton(d1))
+		okZ := len(st) > 0 && len(d1) > 0
+		for _, r := range gz.successReturns() {
+			ret := gz.Nodes[r].N.(*ast.ReturnStmt)
+			if len(ret.Results) == 2 {
+				if s, isConst := constString(cl.Info(), ret.Results[0]); isConst && s == "" {
+					continue
+				}
+			}
+			if inS[r]&(1<<stOK) == 0 && inD[r]&^(1<<stOK) != 0 {
+				okZ = false
+			}
+			if inS[r]&^(1<<stOK) != 0 && inD[r]&^(1<<stOK) != 0 {
+				okZ = false
+			}
+		}
+		c.check("fetch.zip-path-needs-file", cl.Name, cl.Body.Pos(), okZ, "downloadZip may return the zip path only if the file was found (os.Stat) or downloadZip1 succeeded")
+	}
 }
